@@ -105,11 +105,24 @@ def rules_prepare_frame(ctx, prefix="R1", F=None):
 def rules_get_frame(ctx, prefix="R2", F=None):
     """the override frame replaces only frame 0, only when the flag is set and an override exists"""
     F = F or ctx.facts
-    b = F.one(crate="mina_core", name="get_frame", impl_self_adt="mina_core::timeline_helpers::SubTimeline")
+    # found by signature, not by name: the method of SubTimeline that maps (index, enable-override flag) to a frame
+    cands = F.find(crate="mina_core", test=False, impl_self_adt="mina_core::timeline_helpers::SubTimeline",
+                   pred=lambda b: b["def_kind"] != "Closure" and sorted(b.get("sig_inputs", [])[1:]) == ["bool", "usize"]
+                   and (b.get("sig_output") or "").startswith("core::option::Option<&")
+                   and "SplitKeyframe" in (b.get("sig_output") or ""))
+    if len(cands) != 1:
+        # no such helper (the lookup may have been written inline): the same scope rule is decided on the inlined paths
+        # of value_at by C01/R2's frame-pair rule (override only for flag set, index 0, override present)
+        from rules import c01
+        c01.rule_lookup(ctx, F, prefix, prefix)
+        return
+    b = cands[0]
     eng = pse.Engine(F)
     ps = eng.run(b)
     ctx.count_paths(ps, b)
     SELF = ("deref", ("param", 1))
+    P_IDX = ("param", 1 + b["sig_inputs"].index("usize"))
+    P_FLAG = ("param", 1 + b["sig_inputs"].index("bool"))
     a = F.adt("mina_core::timeline_helpers::SubTimeline")
     ov = [f["name"] for f in a["variants"][0]["fields"] if f["ty"].startswith("core::option::Option<")]
     fr = [f["name"] for f in a["variants"][0]["fields"] if "SplitKeyframe" in f["ty"] and f["ty"].startswith("alloc::vec::Vec<")]
@@ -122,9 +135,9 @@ def rules_get_frame(ctx, prefix="R2", F=None):
             continue
         flag = idx0 = has = None
         for (t, v, s) in p.conds:
-            if t == ("param", 3):
+            if t == P_FLAG:
                 flag = v
-            if t[0] == "bin" and t[1] == "Eq" and t[2] == ("param", 2) and t[3] == ("const", "usize", 0):
+            if t[0] == "bin" and t[1] == "Eq" and t[2] == P_IDX and t[3] == ("const", "usize", 0):
                 idx0 = v
             if t[0] == "discr" and pse.contains(t, ("field", ov[0])) or (t[0] == "discr" and pse.contains(t, ("field", SELF, ov[0]))):
                 has = v
@@ -139,8 +152,8 @@ def rules_get_frame(ctx, prefix="R2", F=None):
             # plain lookup of the requested index in the frames
             g = [e for e in calls(p, lambda e: e["fn"]["name"] == "get")]
             ok = len(g) == 1 and g[0]["descs"][0] == ("&", ("field", SELF, fr[0])) and r == g[0]["result"]
-            want_idx = ("const", "usize", 0) if (flag == 1 and idx0 == 1) else ("param", 2)
-            ok = ok and g[0]["descs"][1] in (want_idx, ("param", 2))
+            want_idx = ("const", "usize", 0) if (flag == 1 and idx0 == 1) else P_IDX
+            ok = ok and g[0]["descs"][1] in (want_idx, P_IDX)
             ctx.ob(prefix, "get_frame/plain[%s,%s,%s]" % (flag, idx0, has), ok,
                    "without override the frame at the requested index is returned; returns %s" % show(r), b["span"],
                    trace_of(p), what="plain-frame-wrong")
